@@ -108,7 +108,7 @@ func makeTraffic(name string, horizon time.Duration) traffic {
 			tr.App = append(tr.App, tev{appPhase + skew(p), p})
 			every(&tr.Peer, peerPhase, time.Minute, p)
 		}
-	case "both60":
+	case "both60", "second-socket":
 		npeers = 2
 		for p := range npeers {
 			every(&tr.App, appPhase, time.Minute, p)
@@ -624,6 +624,22 @@ func runOnce(t *testing.T, sc scenario) (res *runResult) { //nolint:gocognit,cyc
 
 			return
 		}
+		if sc.Pattern == "second-socket" {
+			first := relay
+			_ = first.Close()
+			synctest.Wait()
+			if relay, err = cl.Allocate(); err != nil {
+				add("allocate-failed", "second Allocate on the same client: "+err.Error())
+				res.Outcome = "error:allocate"
+				cl.Close()
+				_ = fc.Close()
+				w.Close()
+
+				return
+			}
+			_ = first.Close() // closing the closed socket again changes nothing for the open one
+			synctest.Wait()
+		}
 		relayAddr, _ := relay.LocalAddr().(*net.UDPAddr)
 		psock := make([]*simnet.UDPSock, len(tr.Peers))
 		for i, a := range tr.Peers {
@@ -1091,6 +1107,17 @@ func judge(r *rep.Report, tl *tally, sc scenario, res *runResult, part string, f
 		if part != "close" {
 			sig += ":after=" + after
 		}
+		if sc.Pattern == "second-socket" {
+			// the history is part of the signature, and so is which of the two Refresh(0) a deviation hit
+			p := make([]string, len(sc.Devs))
+			for i, d := range sc.Devs {
+				p[i] = d.Tx + "-" + d.Kind
+			}
+			sig = "second-socket:" + f.Sig + ":after=" + strings.Join(p, "+")
+			if len(sc.Devs) == 0 {
+				sig = "second-socket:" + f.Sig + ":after=none"
+			}
+		}
 		r.Violate(rep.Violation{Oracle: "c14-" + part, Signature: sig,
 			Detail: fmt.Sprintf("cfg=%s traffic=%s horizon=%v close=%.2fs schedule=%v: %s", sc.Cfg.Name, sc.Pattern, sc.Horizon, sc.closeAt().Seconds(), sc.Devs, f.Detail),
 			Replay: map[string]any{"engine": "c14", "scenario": sc}})
@@ -1126,6 +1153,16 @@ func combos(patterns ...string) []combo {
 	}
 
 	return out
+}
+
+// extraCombos (faults part only): a configured lifetime far above the default - the client's refresh interval is
+// half the GRANTED lifetime, so whatever it proposes later must keep the allocation alive for that long - and an
+// application that closes its relayed socket, allocates a second one on the same client and (a deferred Close)
+// closes the first once more.
+func extraCombos() []combo {
+	long := srvCfg{"life2400(2400,300,600)", 2400 * time.Second, 300 * time.Second, 600 * time.Second}
+
+	return []combo{{long, "idle"}, {long, "both60"}, {configs()[0], "second-socket"}}
 }
 
 func replay(t *testing.T, r *rep.Report) bool {
@@ -1193,7 +1230,7 @@ func TestC14Faults(t *testing.T) {
 		name, horizon = "D1/3h", 3*time.Hour
 	}
 	r.Bound = 1
-	for _, cb := range combos() {
+	for _, cb := range append(combos(), extraCombos()...) {
 		base := scenario{Cfg: cb.cfg, Pattern: cb.pat, Horizon: horizon}
 		key := name + "|" + cb.cfg.Name + "|" + cb.pat + "|"
 		rep.Current(base)
